@@ -130,7 +130,27 @@ def forced():
                                 st_req("r2"), st_sleep(SEC),
                                 {"op": "stop", "id": "c3", "async": False, "name": H(b"web"), "msg": H(b""), "drain_timeout": SEC},
                                 st_req("r3"), st_sleep(SEC), st_resume("c4", b"web", async_=False), st_req("r4")]
-    return [(k, {"steps": v + st_end()}) for k, v in sc.items()]
+    # the rollout split / the rollout targets change while requests are held: on resume each held request goes to the targets
+    # the service selects for it THEN ("expect": request -> target that must answer it)
+    rd = lambda cid, t: {"op": "rollout_deploy", "id": cid, "async": False, "name": H(b"web"), "targets": [{"name": H(t), "probes": ["ok"]}],
+                         "deploy_timeout": 5 * SEC, "drain_timeout": SEC}
+    rset = lambda cid, pct: {"op": "rollout_set", "id": cid, "async": False, "name": H(b"web"), "pct": pct, "allow": []}
+    cookie = lambda rid: dict(st_req(rid), headers=[[H(b"Cookie"), H(b"kamal-rollout=alice")]])
+    out = [(k, {"steps": v + st_end()}) for k, v in sc.items()]
+    out.append(("held-rollout-stopped", {"steps": [st_deploy("c1", b"web", [b"ta:80"]), rd("c2", b"tr:80"), rset("c3", 100),
+                                                   st_pause("c4", b"web", 20 * SEC, async_=False), cookie("r1"), st_req("r2"), st_sleep(SEC),
+                                                   {"op": "rollout_stop", "id": "c5", "async": False, "name": H(b"web")}, st_sleep(SEC),
+                                                   st_resume("c6", b"web", async_=False), cookie("r3")] + st_end(),
+                                         "expect": {"r1": "ta:80", "r2": "ta:80", "r3": "ta:80"}}))
+    out.append(("held-rollout-set", {"steps": [st_deploy("c1", b"web", [b"ta:80"]), rd("c2", b"tr:80"),
+                                               st_pause("c4", b"web", 20 * SEC, async_=False), cookie("r1"), st_req("r2"), st_sleep(SEC),
+                                               rset("c5", 100), st_sleep(SEC), st_resume("c6", b"web", async_=False), cookie("r3")] + st_end(),
+                                     "expect": {"r1": "tr:80", "r2": "ta:80", "r3": "tr:80"}}))
+    out.append(("held-rollout-redeployed", {"steps": [st_deploy("c1", b"web", [b"ta:80"]), rd("c2", b"tr:80"), rset("c3", 100),
+                                                      st_pause("c4", b"web", 20 * SEC, async_=False), cookie("r1"), st_sleep(SEC),
+                                                      rd("c5", b"ts:80"), st_sleep(SEC), st_resume("c6", b"web", async_=False), cookie("r3")] + st_end(),
+                                            "expect": {"r1": "ts:80", "r3": "ts:80"}}))
+    return out
 
 
 # ------------------------------------------------------- random schedules ----
@@ -339,6 +359,17 @@ def run(tier, seed):
                 terms.append("(%s,\n (%s : list (nat * bool)))" % (m5.trace_term([e for e in o["events"] if e["kind"] in KEPT]), flags))
             return m4x.coq_map(work, IMPORTS, "", terms, EXPR, tag, shard=6)
 
+        def expectations(pairs):
+            """directed scenarios with an "expect" map: [(scenario name, [request numbers answered by another target])]"""
+            sel = [(i, sc, o) for i, (sc, o) in enumerate(pairs) if sc.get("expect")]
+            if not sel:
+                return []
+            terms = ["(%s : list (nat * str),\n %s)" % (list_lit(["(%d, %s)" % (m5.rid(r), str_lit(n.encode())) for r, n in sorted(sc["expect"].items())]),
+                                                          m5.trace_term([e for e in o["events"] if e["kind"] == "respond"])) for _, sc, o in sel]
+            vals = m4x.coq_map(work, "From KP Require Import model.Base model.Trace corr.C07expect.", "", terms,
+                               "fun x => c07_served_bad (fst x) (snd x)", "C07exp", shard=4)
+            return [(i, v) for (i, _, _), v in zip(sel, vals) if v]
+
         def bad(r):
             return (not r[0]) or (not r[2]) or any(exc == 0 for (_, _, exc) in r[4])
         results = []
@@ -443,7 +474,15 @@ def run(tier, seed):
                  "trace": readable(o["events"])}
             p.update(extra)
             return p
-        if mon_fail:
+        exp_bad = expectations(list(zip(scenarios, outs))) if (harness_ok and ok and len(outs) == len(scenarios)) else []
+        res.coverage["directed_expectations"] = {"scenarios": len([1 for sc in scenarios if sc.get("expect")]),
+                                                 "requests": sum(len(sc["expect"]) for sc in scenarios if sc.get("expect")),
+                                                 "answered_by_another_target": sum(len(v) for _, v in exp_bad)}
+        if exp_bad and not mon_fail:
+            j, rqs = exp_bad[0]
+            res.violation("expect-%d" % j, payload(j, "monitor c07_served_bad: held request(s) %s were not answered by the targets the service "
+                                                      "selects for them at the resume (expected: %s)" % (", ".join("r%d" % q for q in rqs), scenarios[j]["expect"]), {}))
+        elif mon_fail:
             j, rq, code = mon_fail[0]
             res.violation("monitor-%d" % j, payload(j, "monitor c07_check false on an implementation trace: request r%d: %s"
                                                     % (rq, CODES.get(code, code)),
